@@ -46,8 +46,11 @@ def isclose (a b atol : Rat) : Bool := decide (absQ (a - b) ≤ atol)
 
 def minQ (a b : Rat) : Rat := if a ≤ b then a else b
 
+/-- the double nearest to `1e-6`, exactly (fixed by the tie theorem against the translated source) -/
+def dbl1em6 : Rat := mkRat 4722366482869645 4722366482869645213696
+
 /-- seam tolerance: a millionth of the smaller of the two heights -/
-def seamTol (a b : Grid) : Rat := 1 / 1000000 * minQ (absQ (a.y1 - a.y0)) (absQ (b.y1 - b.y0))
+def seamTol (a b : Grid) : Rat := dbl1em6 * minQ (absQ (a.y1 - a.y0)) (absQ (b.y1 - b.y0))
 
 /-- `combine_area_extents_vertical` + `concatenate_area_defs` (same CRS assumed); `none` = IncompatibleAreas -/
 def concatAreas (a b : Grid) : Option Grid :=
